@@ -17,6 +17,7 @@ package main
 // reproduces when the case is run a second time.
 
 import (
+	"bufio"
 	"bytes"
 	"encoding/hex"
 	"encoding/json"
@@ -61,6 +62,7 @@ type e2eCase struct {
 	PortBusy bool     `json:"port_busy"` // the debug address is already in use: the HTTP task fails
 	Prom     bool     `json:"prometheus"`
 	Restart  bool     `json:"restart"` // run the same configuration twice (the epoch is the start of each process)
+	Early    bool     `json:"early"`   // the signal arrives while main() is still between signal.Notify and Serve
 }
 
 type e2eProbe struct {
@@ -82,6 +84,23 @@ type e2eRun struct {
 	Hung                      string // non-empty: the process had to be killed (why)
 	Ifaces                    []rIface
 	World                     system.VkWorld
+}
+
+type lockedBuffer struct {
+	mu sync.Mutex
+	b  bytes.Buffer
+}
+
+func (l *lockedBuffer) Write(p []byte) (int, error) {
+	l.mu.Lock()
+	defer l.mu.Unlock()
+	return l.b.Write(p)
+}
+
+func (l *lockedBuffer) String() string {
+	l.mu.Lock()
+	defer l.mu.Unlock()
+	return l.b.String()
 }
 
 type e2eSkip struct{ why string }
@@ -179,11 +198,26 @@ func e2eExecute(c e2eCase, cfg rConfig) (*e2eRun, error) {
 	cmd.Dir = dir
 	cmd.Env = append(os.Environ(), "VERIF_E2E_CHILD=1", "VERIF_E2E_CFG="+filepath.Join(dir, "corerad.toml"),
 		"VERIF_WORLD="+filepath.Join(dir, "world.json"), "NOTIFY_SOCKET="+npath)
-	var stderr bytes.Buffer
-	cmd.Stdout, cmd.Stderr = &stderr, &stderr
+	var stderr lockedBuffer
+	var pr, pw *os.File
+	if c.Early {
+		// the child's stderr is a pipe the parent does not drain at first: main() blocks while
+		// BuildTasks logs the 3000 idle interfaces, i.e. after signal.Notify and before Serve
+		pr, pw, err = os.Pipe()
+		if err != nil {
+			return nil, e2eSkip{err.Error()}
+		}
+		defer pr.Close()
+		cmd.Stdout, cmd.Stderr = pw, pw
+	} else {
+		cmd.Stdout, cmd.Stderr = &stderr, &stderr
+	}
 	run.Spawn = time.Now()
 	if err := cmd.Start(); err != nil {
 		return nil, e2eSkip{err.Error()}
+	}
+	if pw != nil {
+		pw.Close()
 	}
 	exited := make(chan error, 1)
 	go func() { exited <- cmd.Wait() }()
@@ -225,6 +259,51 @@ func e2eExecute(c e2eCase, cfg rConfig) (*e2eRun, error) {
 		}
 		p.R = time.Now()
 		return p
+	}
+	if c.Early {
+		br := bufio.NewReader(pr)
+		sawSkip := make(chan bool, 1)
+		go func() {
+			for {
+				line, err := br.ReadString('\n')
+				stderr.Write([]byte(line))
+				if strings.Contains(line, "skipping initialization") {
+					sawSkip <- true
+					return
+				}
+				if err != nil {
+					sawSkip <- false
+					return
+				}
+			}
+		}()
+		select {
+		case ok := <-sawSkip:
+			if !ok {
+				kill()
+				return nil, e2eSkip{"early mode: the child ended before BuildTasks:\n" + stderr.String()}
+			}
+		case werr := <-exited:
+			finish(werr)
+			return run, nil
+		case <-time.After(e2eBudget):
+			kill()
+			return nil, e2eSkip{"early mode: BuildTasks not reached within the budget"}
+		}
+		sig := map[string]syscall.Signal{"TERM": syscall.SIGTERM, "INT": syscall.SIGINT, "HUP": syscall.SIGHUP}[c.Sig]
+		run.SigAt = time.Now()
+		_ = cmd.Process.Signal(sig)
+		time.Sleep(300 * time.Millisecond) // the runtime has handed the signal to os/signal by now
+		go func() { _, _ = io.Copy(&stderr, br) }()
+		select {
+		case werr := <-exited:
+			finish(werr)
+		case <-time.After(e2eBudget):
+			kill()
+			finish(nil)
+			run.Hung = fmt.Sprintf("SIG%s arrived after signal.Notify and before Serve; the process was still running %v later", c.Sig, e2eBudget)
+		}
+		return run, nil
 	}
 	// wait until the process is up: the HTTP listener answers and (unless an interface is missing) READY=1 arrived
 	wantReady := len(c.Missing) == 0
@@ -496,7 +575,9 @@ func e2eExpect(c e2eCase, run *e2eRun, i int, tLo, tHi time.Time) (lo, hi *ndp.R
 	if early < 0 {
 		early = 0
 	}
-	late := tHi.Sub(run.Spawn) + time.Second
+	// no slack is needed: the epoch is read after the spawn and before readiness, the RA is
+	// built within [tLo, tHi], and truncation to whole seconds is monotone
+	late := tHi.Sub(run.Spawn)
 	stE, stL := st, st
 	stE.NowNS, stL.NowNS = int64(early), int64(late)
 	hi, f1 := expectRA(run.Ifaces[i], stE, run.Spawn)
@@ -596,7 +677,7 @@ func oracleC20(c e2eCase, run *e2eRun) error {
 		}
 		// one task per advertising / monitoring interface, none for the others; a
 		// failing HTTP task may stop the server before a task has dialled
-		if got := opens[ri.Name]; got > want || (got < want && !c.PortBusy) {
+		if got := opens[ri.Name]; got > want || (got < want && !c.PortBusy && !c.Early) {
 			return verifkit.Violf("C20main/tasks-per-interface", "interface %q (advertise=%v monitor=%v exists=%v): %d connections opened, want %d\n%s", ri.Name, ri.Advertise, ri.Monitor, !missing[i], got, want, d())
 		}
 	}
@@ -625,7 +706,7 @@ func oracleC20(c e2eCase, run *e2eRun) error {
 		if tasksNeverReady {
 			return verifkit.Violf("C20main/ready-although-a-task-is-not", "READY=1 although an interface task never initialised\n%s", d())
 		}
-	case ready == 0 && len(c.Missing) == 0 && !c.PortBusy:
+	case ready == 0 && len(c.Missing) == 0 && !c.PortBusy && !c.Early:
 		return verifkit.Violf("C20main/ready-not-announced", "every task was up (the debug API answered 200) but READY=1 was never sent\n%s", d())
 	}
 	return nil
@@ -633,7 +714,7 @@ func oracleC20(c e2eCase, run *e2eRun) error {
 
 // oracleC08: the final advertisement.
 func oracleC08(c e2eCase, run *e2eRun) error {
-	if c.PortBusy || run.Hung != "" {
+	if c.PortBusy || c.Early || run.Hung != "" {
 		return nil
 	}
 	missing := map[int]bool{}
@@ -681,7 +762,7 @@ func oracleC17(c e2eCase, run *e2eRun) error { return e2eRAOracle(c, run, "C17ma
 func oracleC16(c e2eCase, run *e2eRun) error { return e2eRAOracle(c, run, "C16main", false) }
 
 func e2eRAOracle(c e2eCase, run *e2eRun, pfx string, full bool) error {
-	if c.PortBusy || len(c.Missing) > 0 || run.Hung != "" {
+	if c.PortBusy || c.Early || len(c.Missing) > 0 || run.Hung != "" {
 		return nil
 	}
 	d := func() string { return e2eDesc(c, run) }
@@ -990,6 +1071,8 @@ func e2eGen(forC16 bool) func(t *rapid.T) e2eCase {
 		// (PortBusy stays in the case type for hand-written replays only: the HTTP task
 		// retries a busy address 40 times, it is not a quick way to make a task fail)
 		switch rapid.IntRange(0, 7).Draw(t, "special") {
+		case 0:
+			c.Early = true
 		case 1, 2:
 			c.Missing = []int{rapid.IntRange(0, 3).Draw(t, "missing")}
 		}
@@ -999,6 +1082,14 @@ func e2eGen(forC16 bool) func(t *rapid.T) e2eCase {
 
 func e2eProp(k *verifkit.Kit, id string, oracles ...e2eOracle) func(c e2eCase) error {
 	return func(c e2eCase) error {
+		if c.Early {
+			// 3000 idle interfaces: BuildTasks logs a line for each
+			var names []string
+			for i := 0; i < 3000; i++ {
+				names = append(names, fmt.Sprintf("idle%d", i))
+			}
+			c.Doc.Interfaces = append(append([]dIface(nil), c.Doc.Interfaces...), dIface{HasNames: true, Names: names})
+		}
 		res := reference(c.Doc, time.Unix(0, 0))
 		if res.V != vAccept {
 			k.Class("not-an-accepted-configuration")
@@ -1027,6 +1118,9 @@ func e2eProp(k *verifkit.Kit, id string, oracles ...e2eOracle) func(c e2eCase) e
 		}
 		if c.Restart {
 			cls = append(cls, "restart")
+		}
+		if c.Early {
+			cls = append(cls, "signal-before-serve")
 		}
 		k.Record(c, adv >= 1, cls...)
 		once := func() error {
